@@ -15,7 +15,7 @@ class C10(Prop):
             "selected, with the documented output server port and an unchanged client port; non-trivial = at least one "
             "connection on a non-default port or -m given; distinct = spec digests")
     reach = ["m_absent", "m_bare", "m_pairs", "m_trailing_comma", "p_list", "server_on_unlisted_port", "server_on_p_port",
-             "server_on_44330", "quic_conn", "mapped_port_hit", "mapped_default_8080"]
+             "server_on_44330", "quic_conn", "mapped_port_hit", "mapped_default_8080", "first_segment_from_server"]
 
     def plan(self, tier):
         p = super().plan(tier)
@@ -78,7 +78,23 @@ class C10(Prop):
             cli["m"] = uniq
         if R.chance(20):
             cli["d"] = R.choice(["", "INFO", "DEBUG", "DEBUG", "WARNING"])
-        return {"prop": "C10", "conns": conns, "tap": gen.gen_tap(R.fork("tap")), "cli": cli, "unlisted": unl}
+        spec = {"prop": "C10", "conns": conns, "tap": gen.gen_tap(R.fork("tap")), "cli": cli, "unlisted": unl}
+        tls = [c for c in conns if c["proto"] == "tls"]
+        if tls and R.chance(12):
+            # the capture missed the client's first flight of one connection: the first segment seen comes from the
+            # server; with -a its handshake records are still exported and must carry the documented ports
+            v = R.choice(tls)
+            ex = world.expand(spec)
+            drop = []
+            for e in ex["taplog"]:
+                if e["conn"] == v["id"]:
+                    if e["d"] == "s" and "ctl" not in e:
+                        break
+                    drop.append(e["i"])
+            spec["faults"] = [{"k": "drop", "i": i} for i in drop]
+            spec["first_from_server"] = v["id"]
+            cli["a"] = True
+        return spec
 
     def quic_available(self):
         import os
@@ -102,6 +118,8 @@ class C10(Prop):
                 out.count("reach:m_trailing_comma")
         if cli.get("p"):
             out.count("reach:p_list")
+        if spec.get("first_from_server") is not None:
+            out.count("reach:first_segment_from_server")
         selected = set([443, 44330] + list(cli.get("p", [])))
         fc = failure_class(res)
         if fc:
@@ -148,7 +166,7 @@ class C10(Prop):
             tc = [x for x in ex["truth"]["conns"] if x["id"] == c["id"]][0]
             has_data = bool(tc["app"]["c"] or tc["app"]["s"]) if c["proto"] == "tls" else bool(tc.get("expected"))
             if not mine:
-                if has_data:
+                if has_data and spec.get("first_from_server") != c["id"]:
                     out.violate("selected-port-exported", "no-output-for-selected-port:" + c["proto"], tag)
                 continue
             for k in mine:
